@@ -29,7 +29,7 @@ from models.strings import StrS, gs, sref
 ID = 'C15'
 PROFILES = ['dev']
 REPLAY_PROFILES = ['dev']
-TIME_LIMIT = {'quick': 300, 'thorough': 1500}
+TIME_LIMIT = {'quick': 600, 'thorough': 1500}
 BUDGET = 150
 FIRST_BUDGET = 60
 REPLAY_TIMEOUT = 240
